@@ -332,6 +332,7 @@ fn enum_base() -> Scenario {
         stateless_reset: false,
         rebinds: vec![],
         attacks: vec![],
+        evil: None,
     }
 }
 
